@@ -278,8 +278,10 @@ reg("C17", harness="c17_window", level="exploration", deadline=(300, 1800), extr
                "decoder measures the maximum match distance (<= 2^w, <= 32768, never before the start) and zlib with a 2^w window and 1-byte "
                "output chunks must accept the stream; the zlib header must advertise >= the window. Dictionaries of 10 lengths (1..70000) x 4 data "
                "shapes x levels x 3 CPU levels: stream(dict) decodes with the last 32 KiB as history, equals stream(last 32 KiB only) and the "
-               "process_dict/reset_dict stream, round-trips through isal_inflate_set_dict and zlib; wrong-state calls are refused with the context "
-               "image unchanged.",
+               "process_dict/reset_dict stream, round-trips through isal_inflate_set_dict and zlib, each x hist_bits {default, 9, 12} assigned before or "
+               "after the dictionary call; dictionaries installed MID-STREAM after a completed SYNC/FULL flush (8 first-part lengths incl. 65535/65536/"
+               "65537 x 3 dictionary lengths x both routes): the rest of the stream decoded with the dictionary as its only history must be the rest "
+               "of the input with no match in front of the dictionary; wrong-state calls are refused with the context image unchanged.",
     level_note="inputs beyond the designed families are not covered; h8k/lht builds are run in the thorough tier; trusted: ref_inflate distance accounting.",
     runs={"quick": [dict(flavour="sim", part="window"), dict(flavour="sim", part="dict")],
           "thorough": [dict(flavour="sim", part="window"), dict(flavour="sim", part="dict"), dict(flavour="h8k", part="window"), dict(flavour="lht", part="window")]},
